@@ -55,12 +55,25 @@ def bits(bs):
 _classes = {}
 
 
-def fit_class(weights, constrained=False, num="float"):
-    key = (tuple(weights), constrained, num)
+def fit_class(weights, constrained=False, num="float", derived=None):
+    """`derived`: None = a class made directly from the library's base class; "sub" = a class derived from ANOTHER
+    concrete fitness class (other weights) that has been used before, overriding `weights` (how
+    creator.create("FitMin2", creator.FitMax2, weights=...) builds it); "list" = weights given as a list."""
+    key = (tuple(weights), constrained, num, derived)
     if key not in _classes:
         b = base.ConstrainedFitness if constrained else base.Fitness
         cw = float if num in ("float", "raw") else int      # "int"/"frac": integer weights, exact products
-        _classes[key] = type("Fit", (b,), {"weights": tuple(cw(w) for w in weights)})
+        ws = tuple(cw(w) for w in weights)
+        if derived == "sub":
+            other = tuple((cw(3) if i % 2 == 0 else cw(-2)) for i in range(len(ws)))
+            parent = type("FitParent", (b,), {"weights": other})
+            pf = parent(tuple(cw(i + 1) for i in range(len(ws))))      # the parent class is used first
+            assert pf.valid and len(pf.values) == len(ws) and not (pf < pf)
+            _classes[key] = type("Fit", (parent,), {"weights": ws})
+        elif derived == "list":
+            _classes[key] = type("Fit", (b,), {"weights": list(ws)})
+        else:
+            _classes[key] = type("Fit", (b,), {"weights": ws})
     return _classes[key]
 
 
@@ -99,7 +112,7 @@ def evaluate(d):
     if k == "ctor":
         return eval_ctor(d)
     if k in ("cmp", "dom", "vals"):
-        F = fit_class(w, num=num)
+        F = fit_class(w, num=num, derived=d.get("cls"))
         a = [fr(x) for x in d["a"]]
         fa = F(tuple(conv(x) for x in a))
         wa = wv(w, a)
@@ -109,7 +122,7 @@ def evaluate(d):
         b = [fr(x) for x in d["b"]]
         fb = F(tuple(conv(x) for x in b))
         wb = wv(w, b)
-    numtag = "" if num == "float" else "/" + num
+    numtag = ("" if num == "float" else "/" + num) + ("/cls=" + d["cls"] if d.get("cls") else "")
     if k == "cmp":
         got = [fa < fb, fa <= fb, fa > fb, fa >= fb, fa == fb, fa != fb]
         want = [lex_lt(wa, wb), lex_lt(wa, wb) or wa == wb, lex_lt(wb, wa), lex_lt(wb, wa) or wa == wb,
@@ -153,7 +166,8 @@ def evaluate(d):
             orc = "fitness with assigned values reports invalid"
         elif not (cl == fa) or cl != fa or cl < fa or cl > fa or not cl.valid or cl is fa or exact(cl.values) != tuple(a):
             orc = "clone does not compare equal to its original"
-        return Case(d, ["C01 vals %s %s" % (slist(w), slist(a))], [out], orc, tag="vals/n=%d" % len(w))
+        return Case(d, ["C01 vals %s %s" % (slist(w), slist(a))], [out], orc,
+                    tag="vals/n=%d%s" % (len(w), "/cls=" + d["cls"] if d.get("cls") else ""))
     if k == "hist":
         F = fit_class(w)
         f = F()
@@ -208,7 +222,7 @@ def evaluate(d):
         return Case(d, ["C01 chist %s %s" % (slist(w), " ".join(toks))],
                     ["%s %s" % (",".join(obs), slist(exact(f.values)))], orc, tag="chist/len=%d" % len(d["ops"]))
     if k == "ccmp":
-        F = fit_class(w, constrained=True)
+        F = fit_class(w, constrained=True, derived=d.get("cls"))
 
         def mk(vals, cv):
             v = tuple(float(fr(x)) for x in vals) if vals else ()
@@ -403,6 +417,18 @@ def generate(tier, rng, mult):
         for L in (1, 2, 3):
             for ops in itertools.product(atoms, repeat=L):
                 yield {"k": "chist", "w": w, "ops": list(ops)}
+    # class hierarchies: a fitness class derived from another concrete (already used) fitness class that overrides
+    # the weights, and weights given as a list
+    for cls in ("sub", "list"):
+        for w in (["1"], ["-1"], ["-1", "-1"], ["1", "-1"], ["-1", "2", "1"]):
+            n = len(w)
+            tuples = [list(map(str, t)) for t in itertools.product([0, 1, 2], repeat=n)][:9]
+            for a in tuples:
+                yield {"k": "vals", "w": w, "a": a, "cls": cls}
+                for b in tuples:
+                    yield {"k": "cmp", "w": w, "a": a, "b": b, "cls": cls}
+                    yield {"k": "dom", "w": w, "a": a, "b": b, "slice": [None, None, None], "cls": cls}
+                    yield {"k": "ccmp", "w": w, "a": a, "cva": None, "b": b, "cvb": [True], "cls": cls}
     # containers: every sized container, constructor / keyword / property, zero and single-element tuples
     for cons in (False, True):
         for w, a in ((["-1"], ["3"]), (["-1"], ["0"]), (["1"], ["0"]), (["1"], ["-5/2"]), (["-1", "1"], ["0", "0"]),
